@@ -229,7 +229,14 @@ fn direct_get_tokens(la: bool, ra: bool) {
     }
     let h0 = pack(&fb[..e0]);
     let r1 = has_pre && alnum(pre) && e0 >= 1;
-    let r2 = (has_pre && pre == b'*') || (has_post && post == b'*');
+    // ... and only for the rule token that touches the star: the first run (pre == '*') or the last run (post == '*')
+    let mut sl = fl;
+    while sl > 0 && alnum(fb[sl - 1]) {
+        sl -= 1;
+    }
+    let hl_last = pack(&fb[sl..fl]);
+    let star_pre = has_pre && pre == b'*' && e0 >= 1;
+    let star_post = has_post && post == b'*' && sl < fl;
     unsafe {
         assert!(NTA <= 4 && NTB <= 6, "P:gt.buffer_bound");
         let mut k = 0;
@@ -244,7 +251,7 @@ fn direct_get_tokens(la: bool, ra: bool) {
                     }
                     j += 1;
                 }
-                if r2 {
+                if (star_pre && t == h0) || (star_post && t == hl_last) {
                     assert!(found, "K:url-token-next-to-literal-star:gt.subset");
                 } else if r1 && t == h0 {
                     assert!(found, "K:first-token-left-unanchored:gt.subset");
